@@ -24,7 +24,9 @@ func witnessF96() (bool, string) {
 	done := make(chan string, 1)
 	go func() {
 		var err error
-		if p := catch(func() { err = ytypes.SetNode(v.Schema().RootSchema(), v.NewRoot(), path, tv, &ytypes.InitMissingElements{}) }); p != nil {
+		if p := catch(func() {
+			err = ytypes.SetNode(v.Schema().RootSchema(), v.NewRoot(), path, tv, &ytypes.InitMissingElements{})
+		}); p != nil {
 			done <- "panic: " + p.Val
 			return
 		}
